@@ -20,10 +20,16 @@ def gen_cfg(rng, profile="faithful"):
             if k == "bind" and rng.chance(0.4):
                 nd["name_style"] = rng.choice(["Provide", "Make"])
                 nd["decoy"] = rng.chance(0.5)          # an unrelated function literally named New<T> exists
+            elif k == "bind" and rng.chance(0.6):
+                nd["apart"] = True                     # the provider sits in another element list than its wire.Bind
             if k in ("struct", "fieldsof") and rng.chance(0.4):
                 nd["form"] = "value"
         if k in ("fn", "fnerr") and rng.chance(0.3):
             nd["name_style"] = rng.choice(["Provide", "Make"])      # harmless for plain providers
+        if k == "bind" and rng.chance(0.35):
+            nd["second_iface"] = True          # a second interface J<i> bound to the same implementation; the consumer takes both
+        if nodes[parent]["kind"] == "struct":
+            nd.pop("second_iface", None)
         nodes[parent]["deps"].append(i)
         nodes.append(nd)
     # a shared dependency now and then (DAG, not only a tree): only onto fn-like leaves
@@ -105,6 +111,9 @@ def render(cfg, pkgname):
         if nd["kind"] in ("bind", "ivalue"):
             src.append("type I%d interface { Term() string; M%d() }" % (i, i))
             src.append("func (x *T%d) M%d() {}" % (i, i))
+        if nd.get("second_iface"):
+            src.append("type J%d interface { Term() string; N%d() }" % (i, i))
+            src.append("func (x *T%d) N%d() {}" % (i, i))
     for c in cfg["cfgs"]:
         fs = "; ".join("F%d %s" % (f, ctype(N[f])) for f in c["fields"])
         src.append("type C%d struct { %s }" % (c["id"], fs))
@@ -118,7 +127,7 @@ def render(cfg, pkgname):
     for nd in N:
         i = nd["id"]
         if nd["kind"] in ("fn", "fnerr", "bind"):
-            params = ", ".join("a%d %s" % (d, ctype(N[d])) for d in nd["deps"])
+            params = ", ".join(["a%d %s" % (d, ctype(N[d])) for d in nd["deps"]] + ["j%d J%d" % (d, d) for d in nd["deps"] if N[d].get("second_iface")])
             args = ' + "," + '.join("a%d.Term()" % d for d in nd["deps"]) or '""'
             ret = "(*T%d, error)" % i if nd["err"] else "*T%d" % i
             body = 'rt.Enter("%s"); ' % fname(nd)
@@ -138,7 +147,7 @@ def render(cfg, pkgname):
         if k in ("fn", "fnerr"):
             return [fname(nd)]
         if k == "bind":
-            return [fname(nd), "wire.Bind(new(I%d), new(*T%d))" % (i, i)]
+            return [fname(nd), "wire.Bind(new(I%d), new(*T%d))" % (i, i)] + (["wire.Bind(new(J%d), new(*T%d))" % (i, i)] if nd.get("second_iface") else [])
         if k == "value":
             return ['wire.Value(T%d{t: "V%d"})' % (i, i)]
         if k == "ivalue":
@@ -149,8 +158,14 @@ def render(cfg, pkgname):
             return ["wire.Struct(new(T%d), %s)" % (i, ", ".join('"F%d"' % d for d in nd["deps"]))]
         return []
     items = []
+    tail = []
     for nd in N:
-        items.append((nd["id"], item(nd)))
+        its = item(nd)
+        if nd["kind"] == "bind" and nd.get("apart") and cfg["set_layout"] != 0:
+            items.insert(0, (("f", nd["id"]), its[:1]))       # the provider first (ends up in the first set) ...
+            tail.append((("b", nd["id"]), its[1:]))           # ... its Bind last (in the other element list)
+        else:
+            items.append((nd["id"], its))
     for c in cfg["cfgs"]:
         tgt = "new(*C%d)" if c["form"] == "ptr" else "new(C%d)"
         its = ["NewC%d" % c["id"]]
@@ -161,6 +176,7 @@ def render(cfg, pkgname):
         else:
             its.append("wire.FieldsOf(%s, %s)" % (tgt % c["id"], ", ".join('"F%d"' % f for f in c["fields"])))
         items.append((-1 - c["id"], its))
+    items += tail
     flat = [x for _, its in items for x in its]
     args = [nd for nd in N if nd["kind"] == "arg"]
     # value-form struct providers need the struct itself when consumed by value: handled by wire (provides T and *T)
@@ -179,6 +195,7 @@ def render(cfg, pkgname):
         half = len(items) // 2
         a = [x for _, its in items[:half] for x in its]
         b = [x for _, its in items[half:] for x in its]
+        cfg["_first_list"] = [k for k, _ in items[:half]]     # which entries went into the first element list
         if layout == 1:
             # set reference + inline nested set
             s = "var SetA = wire.NewSet(%s)\n\n" % ", ".join(a) if a else ""
@@ -244,7 +261,7 @@ def expected_term(cfg, root=0):
 def describe(cfg):
     N = cfg["nodes"]
     return " ".join("%d:%s%s%s(%s)" % (nd["id"], nd["kind"], "" if nd["name_style"] == "New" else "/" + nd["name_style"],
-                                        "/value" if nd.get("form") == "value" else "", ",".join(map(str, nd["deps"]))) for nd in N) + \
+                                        ("/value" if nd.get("form") == "value" else "") + ("/apart" if nd.get("apart") else "") + ("/2ifaces" if nd.get("second_iface") else ""), ",".join(map(str, nd["deps"]))) for nd in N) + \
         " layout=%d files=%d" % (cfg["set_layout"], cfg["nfiles"]) + \
         ("" if cfg.get("second") is None else " second=%d%s" % (cfg["second"], "(first)" if cfg.get("second_first") else ""))
 
@@ -262,6 +279,12 @@ def encode(cfg, root=0):
             return "p%d" % nd["id"]
         return "v%d" % nd["id"]
     items, pkg, args = [], [], []
+    parts = []
+    first = cfg.get("_first_list") if (not root and cfg.get("set_layout", 0) != 0) else None
+    def part(key):
+        if first is None:
+            return 0
+        return 1 if key in first else 2
     for nd in N:
         i, k = nd["id"], nd["kind"]
         if keep is not None and i not in keep:
@@ -273,18 +296,21 @@ def encode(cfg, root=0):
             continue
         if k in ("fn", "fnerr", "bind"):
             name = (1000 + i) if nd["name_style"] == "New" else (5000 + i)
-            f = "%d p%d : %s" % (name, i, " ".join(ty(N[d]) for d in nd["deps"]))
-            items.append("f " + f); pkg.append(f)
+            f = "%d p%d : %s" % (name, i, " ".join([ty(N[d]) for d in nd["deps"]] + ["i%d" % (500 + d) for d in nd["deps"] if N[d].get("second_iface")]))
+            apart = k == "bind" and nd.get("apart") and cfg.get("set_layout", 0) != 0
+            items.append("f " + f); pkg.append(f); parts.append(part(("f", i) if apart else i))
             if k == "bind" and not (root and i == root):
-                items.append("b %d p%d" % (i, i))
+                items.append("b %d p%d" % (i, i)); parts.append(part(("b", i) if apart else i))
+                if nd.get("second_iface"):
+                    items.append("b %d p%d" % (500 + i, i)); parts.append(part(("b", i) if apart else i))
             if nd.get("decoy"):
                 pkg.append("%d p%d : b0 b1" % (1000 + i, i))
         elif k == "value":
-            f = "%d v%d :" % (6000 + i, i); items.append("f " + f); pkg.append(f)
+            f = "%d v%d :" % (6000 + i, i); items.append("f " + f); pkg.append(f); parts.append(part(i))
         elif k == "ivalue":
-            f = "%d i%d :" % (7000 + i, i); items.append("f " + f); pkg.append(f)
+            f = "%d i%d :" % (7000 + i, i); items.append("f " + f); pkg.append(f); parts.append(part(i))
         elif k == "struct":
-            items.append("s %d : %s" % (i, " ".join(ty(N[d]) for d in nd["deps"])))
+            items.append("s %d : %s" % (i, " ".join(ty(N[d]) for d in nd["deps"]))); parts.append(part(i))
         elif k == "arg":
             args.append("p%d" % i)
     for c in cfg["cfgs"]:
@@ -292,6 +318,6 @@ def encode(cfg, root=0):
             continue
         t = 100 + c["id"]
         f = "%d %s%d :" % (8000 + c["id"], "p" if c["form"] == "ptr" else "v", t)
-        items.append("f " + f); pkg.append(f)
-        items.append("o %d %d : %s" % (t, 1 if c["form"] == "ptr" else 0, " ".join("p%d" % j for j in c["fields"])))
-    return "ret p%d | args %s | pkg %s | items %s" % (root, " ".join(args), " ; ".join(pkg), " ; ".join(items))
+        items.append("f " + f); pkg.append(f); parts.append(part(-1 - c["id"]))
+        items.append("o %d %d : %s" % (t, 1 if c["form"] == "ptr" else 0, " ".join("p%d" % j for j in c["fields"]))); parts.append(part(-1 - c["id"]))
+    return "ret p%d | args %s | pkg %s | items %s | parts %s" % (root, " ".join(args), " ; ".join(pkg), " ; ".join(items), " ".join(map(str, parts)))
